@@ -131,6 +131,9 @@ func (p *Prog) NewFlat(pkg *packages.Package, body *ast.BlockStmt) *Flat {
 
 // FlatOf returns the flat CFG of a declared function.
 func (p *Prog) FlatOf(fi *FuncInfo) *Flat {
+	if fi != nil && fi.Lit != nil {
+		return p.NewFlat(fi.Pkg, fi.Lit.Body)
+	}
 	if fi == nil || fi.Decl.Body == nil {
 		return nil
 	}
@@ -313,6 +316,22 @@ func (p *Prog) calleeKeys(pkg *packages.Package, c *ast.CallExpr) []string {
 	keys := []string{fkey(f)}
 	if sig, ok := f.Type().(*types.Signature); ok && sig.Recv() != nil {
 		if _, isIface := sig.Recv().Type().Underlying().(*types.Interface); isIface {
+			// field-sensitive resolution through the constructor wiring, CHA as fallback
+			if sel, ok := ast.Unparen(c.Fun).(*ast.SelectorExpr); ok {
+				if inner, ok := ast.Unparen(sel.X).(*ast.SelectorExpr); ok {
+					if fv, ok := pkg.TypesInfo.Uses[inner.Sel].(*types.Var); ok && fv.IsField() {
+						if ts := p.fieldTypes(fv); len(ts) > 0 {
+							for _, t := range ts {
+								obj, _, _ := types.LookupFieldOrMethod(t, true, nil, f.Name())
+								if m, ok := obj.(*types.Func); ok {
+									keys = append(keys, fkey(m))
+								}
+							}
+							return keys
+						}
+					}
+				}
+			}
 			for _, m := range p.implementers(f) {
 				keys = append(keys, fkey(m))
 			}
